@@ -98,6 +98,25 @@ Theorem C06_message_dropped : forall ops p k m,
 Proof. intros ops p k m s. apply message_dropped. apply Inv_run. apply Inv_init. Qed.
 Print Assumptions C06_message_dropped.
 
+(* Another peer's subscription / binding request call that is delivered (on a second
+   goroutine) while this peer's entities are being removed: the registries serialise it
+   after the cascade, so the operation is the message followed by the call — afterwards
+   the registries are the cascade's result plus the other peer's entry, and the monitor's
+   cascade clause ("... and nothing else") judges the implementation on exactly that. *)
+Theorem C06_call_during_removal_is_sequential : forall s p k m p' kd a fid,
+  p <> p' -> kd = K_SUB \/ kd = K_BIND ->
+  step s (MsgDuring p k m p' kd a fid) =
+  (let '(s1, out1) := step s (Msg p k m) in
+   let '(s2, out2) := step s1 (RegAdd p' kd a fid) in
+   (s2, OSnap s2 :: tl out1 ++ tl out2)).
+Proof.
+  intros s p k m p' kd a fid Hp Hk. cbn [step]. unfold call_after.
+  apply N.eqb_neq in Hp. rewrite Hp. cbn [orb].
+  assert (E : negb (N.eqb kd K_SUB || N.eqb kd K_BIND) = false) by (destruct Hk as [-> | ->]; reflexivity).
+  rewrite E. destruct (handle_msg s p k m) as [s1 evs]. destruct (reg_add s1 p' kd a fid) as [s2 ok]. reflexivity.
+Qed.
+Print Assumptions C06_call_during_removal_is_sequential.
+
 (* every reachable tree has one entity per address *)
 Theorem C06_addresses_unique : forall ops, unique_addresses (fst (run init ops)).
 Proof. intros ops. apply unique_run; [apply Inv_init|apply unique_init]. Qed.
